@@ -26,13 +26,13 @@ for p in props:
             "engine": "pyvc",
             "level_claimed": {"category": "proof", "text": P.get("level_text", ""), "design_ref": P.get("design_ref", f"DESIGN.md section 4 ({pid})")},
             "level_note": P.get("level_note", ""),
-            "technique": P.get("technique", "contract-based deductive verification: sidecar contracts on the real functions, VCs generated from the real ASTs by pyvc, discharged by z3"),
+            "technique": P.get("technique", "contract-based deductive verification: sidecar contracts on the real functions, VCs generated from the real ASTs by pyvc (path-wise symbolic execution with callee contracts, inferred frames, rely/guarantee yield rule, inductive loop clauses), discharged by z3 with cvc5 as second back end; thorough tier adds a sampled cvc5 cross-check of discharged obligations and a self-test against the committed seeded changes"),
         })
 m = {
     "version": 1,
     "setup_cmd": "sh setup.sh",
     "hooks": {"guard": "HYPERCORN_VERIF", "enable": "none needed: contracts are sidecar files under /verif/contracts; the verifier imports and re-parses /repo/src on every run", "baseline_off_cmd": "cd /repo && /venv/bin/python -m pytest -ra -q -p no:cacheprovider --timeout=900 --continue-on-collection-errors", "source_commits": hook_commits, "add_only": True},
-    "engines": [{"name": "pyvc", "path": "pyvc/", "serves_properties": [c["property_id"] for c in checks], "kind_free_text": "self-written VC generator: single-path symbolic executor over the real ASTs of /repo/src/hypercorn (re-parsed every run) with sidecar contracts (pre/post/frame/class invariant/rely/loop invariant/ghost), yield rule for cooperative tasks, assumed contracts for h11/h2/priority/wsproto/runtime; obligations discharged by z3 5.1; counter-models replayed on the real code"}],
+    "engines": [{"name": "pyvc", "path": "pyvc/", "serves_properties": [c["property_id"] for c in checks], "kind_free_text": "self-written VC generator: single-path symbolic executor over the real ASTs of /repo/src/hypercorn (re-parsed every run) with sidecar contracts (pre/post/frame/class invariant/rely/loop invariant/ghost), yield rule for cooperative tasks, assumed contracts for h11/h2/priority/wsproto/runtime; obligations discharged by z3 5.1 (incremental, then fresh instances) and cvc5 1.0.3 (CLI) for what z3 leaves open; counter-models replayed on the real code where the unit is natively constructible, native scenarios for findings"}],
     "checks": checks,
     "not_applicable": [{"property_id": p["id"], "reason": na.get(p["id"], "check not built yet")} for p in props if p["id"] not in {c["property_id"] for c in checks}],
     "notes": "See DESIGN.md. fix: commits in /repo: " + "; ".join(c for c in commits if c.split(" ", 1)[1].startswith("fix:")),
